@@ -65,10 +65,12 @@ Definition listed_paths (evs : list ev) : list str :=
   flat_map (fun e => match e with EvList p _ => [p] | _ => [] end) evs.
 Definition diffed_paths (evs : list ev) : list str :=
   flat_map (fun e => match e with EvDiff p _ _ => [p] | _ => [] end) evs.
+Definition written_paths (evs : list ev) : list str :=
+  flat_map (fun e => match e with EvWrite p _ => [p] | _ => [] end) evs.
 (* one tree: list run, diff run, write run followed by a list run on the rewritten files *)
 Definition tree_ok (tf : list (lang * str * res str)) (ts : list (str * str)) (tl : list (str * option lang))
    (flagl : option lang) (fs : list file) (l_out : list str) (l_rc : bool) (d_out : list str) (d_rc : bool)
-   (l2_out : list str) (l2_rc : bool) : bool :=
+   (l2_out : list str) (l2_rc : bool) (combos : list (flags * list str * list str * list str * bool)) : bool :=
   let fmt := tbl_fmt tf in let sb := tbl_str ts in let lf := tbl_lang tl in
   let '(e1, s1) := run_files fmt sb lf (mkFlags LNl false false) flagl fs in
   let '(e2, s2) := run_files fmt sb lf (mkFlags LOff false true) flagl fs in
@@ -77,7 +79,10 @@ Definition tree_ok (tf : list (lang * str * res str)) (ts : list (str * str)) (t
   let '(e4, s4) := run_files fmt sb lf (mkFlags LNl false false) flagl fs' in
   same_set (listed_paths e1) l_out && Bool.eqb s1 l_rc &&
   same_set (diffed_paths e2) d_out && Bool.eqb s2 d_rc &&
-  same_set (listed_paths e4) l2_out && Bool.eqb s4 l2_rc.
+  same_set (listed_paths e4) l2_out && Bool.eqb s4 l2_rc &&
+  forallb (fun cb => match cb with (fl, li, di, wr, st) =>
+     let '(e, s) := run_files fmt sb lf fl flagl fs in
+     same_set (listed_paths e) li && same_set (diffed_paths e) di && same_set (written_paths e) wr && Bool.eqb s st end) combos.
 """
 
 
@@ -87,7 +92,7 @@ def b(x):
 
 def tree_case(r):
     """Coq term (bool) for one harness row, or None when the row is outside the model's table"""
-    fl = LANGS.get(r.get("ln") or "")      # -ln, or shell_variant of the EditorConfig realisation
+    flagl = LANGS.get(r.get("ln") or "")   # -ln, or shell_variant of the EditorConfig realisation
     if r.get("per_file_ln"):
         return None                         # the model has one forced language per invocation
     tf, ts, tl, fs = [], {}, {}, []
@@ -122,12 +127,18 @@ def tree_case(r):
                 ts[exp[:32]] = shebang(exp[:32])
         fs.append("(mkFile %s %s %s true)" % (b(rel), b(src), "true" if chk else "false"))
     paths = lambda l: coq_list([b(p.encode()) for p in (l or [])])
-    return "tree_ok %s %s %s %s %s %s %s %s %s %s %s" % (
+    combos = []
+    for cb in r.get("combos") or []:
+        fl = cb["flags"]
+        combos.append("(mkFlags %s %s %s, %s, %s, %s, %s)" % (
+            "LNl" if "-l" in fl else "LOff", "true" if "-w" in fl else "false", "true" if "-d" in fl else "false",
+            paths(cb["listed"]), paths(cb["diffed"]), paths(cb["written"]), "true" if cb["rc"] else "false"))
+    return "tree_ok %s %s %s %s %s %s %s %s %s %s %s %s" % (
         coq_list(tf), coq_list(["(%s, %s)" % (b(k), b(v)) for k, v in ts.items()]),
         coq_list(["(%s, %s)" % (b(k), ("Some " + v) if v else "None") for k, v in tl.items()]),
-        ("(Some %s)" % fl) if fl else "None", coq_list(fs),
+        ("(Some %s)" % flagl) if flagl else "None", coq_list(fs),
         paths(r["l_out"]), "true" if r["l_rc"] else "false", paths(r["d_files"]), "true" if r["d_rc"] else "false",
-        paths(r["l2_out"]), "true" if r["l2_rc"] else "false")
+        paths(r["l2_out"]), "true" if r["l2_rc"] else "false", coq_list(combos))
 
 
 def patch_case(f):
@@ -158,7 +169,7 @@ def run(ctx):
     binp = ctx.go_build("c36")
     if not shfmt or not binp:
         return
-    n = 8 if ctx.tier == "quick" else 250
+    n = 6 if ctx.tier == "quick" else 250
     scratch = "/tmp/c36_%d_%d" % (os.getpid(), ctx.seed)
     rc, rows, err = ctx.jsonl([binp, "gen", "-seed", str(ctx.seed), "-n", str(n), shfmt, scratch], timeout=3000)
     rc2, prow, err2 = ctx.jsonl([binp, "pinned", shfmt, scratch + "p"], timeout=600)
